@@ -75,6 +75,9 @@ from verif import vloop, mesonproc
 from mesonbuild import mtest
 
 TIMEOUTS = [30, 20, 40, 10, 25]
+# test.yaml, timeout: "Since 0.57 if timeout is <= 0 the test has infinite duration"; the tests of blocks 5..9 have no limit
+NOLIMIT = [-1, 0, -30, 0, -1]
+INF = float('inf')
 OUTS = ['ok', 'fail', 'skip', 'err', 'sig', 'hang']
 RC = {'ok': 0, 'fail': 1, 'skip': 77, 'err': 99, 'sig': -int(signal.SIGSEGV), 'hang': 0}
 STREAMS = {'ok': b'1..1\nok 1\n', 'notok': b'1..1\nnot ok 1\n', 'skip': b'1..0 # SKIP\n',
@@ -137,7 +140,7 @@ foreach b : %r
     endforeach
   endforeach
 endforeach
-''' % (TIMEOUTS[:nblocks], list(range(nblocks)))
+''' % ((TIMEOUTS + NOLIMIT)[:nblocks], list(range(nblocks)))
     return {'meson.build': mb, 't.py': T_PY % sys.executable}
 
 
@@ -333,6 +336,12 @@ def configurations(thorough):
                                 c2 = dict(cfg)
                                 c2['tm'] = tm
                                 out.append((c2, bounds[repeat]))
+                            # no limit at all: timeout: <= 0 in the build definition, or --timeout-multiplier <= 0 (only tests that
+                            # end by themselves: nothing else would ever end a hanging one)
+                            if not any(t[3] == 'hang' or t[5] == 'hang' for t in tests):
+                                out.append((dict(cfg, nolim=True), bounds[repeat]))
+                                for tm in (0, -1):
+                                    out.append((dict(cfg, tm=tm), bounds[repeat]))
     out.sort(key=lambda cb: (len(cb[0]['tests']) * cb[0]['repeat'], cb[0]['jobs']))
     if os.environ.get('C12_STRIDE'):      # debugging aid only (cost estimation)
         out = out[::int(os.environ['C12_STRIDE'])]
@@ -377,8 +386,11 @@ def parse_totals(out):
 
 
 def cfg_index(cfg):
-    names = [tname(i, t) for i, t in enumerate(cfg['tests'])]
-    meta = {tname(i, t): (t, TIMEOUTS[i] * (cfg.get('tm') or 1)) for i, t in enumerate(cfg['tests'])}
+    off = len(TIMEOUTS) if cfg.get('nolim') else 0
+    names = [tname(i + off, t) for i, t in enumerate(cfg['tests'])]
+    tm = cfg.get('tm')
+    # Unit-tests.md / `meson test --help`: --timeout-multiplier "<= 0 to disable timeout"
+    meta = {tname(i + off, t): (t, INF if (cfg.get('nolim') or (tm is not None and tm <= 0)) else TIMEOUTS[i] * (tm or 1)) for i, t in enumerate(cfg['tests'])}
     return names, meta
 
 
@@ -592,7 +604,7 @@ def minimal_environ():
 
 def cfg_argv(cfg, wd):
     names, _ = cfg_index(cfg)
-    tm = ['-t', str(cfg['tm'])] if cfg.get('tm') else []
+    tm = ['-t', str(cfg['tm'])] if cfg.get('tm') is not None else []
     return ['-C', wd, '--num-processes', str(cfg['jobs']), '--repeat', str(cfg['repeat']), '--maxfail', str(cfg['maxfail'])] + tm + names
 
 
@@ -1144,7 +1156,7 @@ def main():
     thorough = ck.thorough
     mesonproc.preimport()
     root = scratch_root()
-    MAIN_BLD = setup_project(os.path.join(root, 'main'), main_project(5))
+    MAIN_BLD = setup_project(os.path.join(root, 'main'), main_project(len(TIMEOUTS) + len(NOLIMIT)))
     SEL_BLD = setup_project(os.path.join(root, 'sel'), sel_project())
     NM_BLD = setup_project(os.path.join(root, 'nm'), names_project())
     if ck.args.replay:
